@@ -461,7 +461,8 @@ theorem BSat.val {α} {P : α → Prop} {x : Except BErr α} (h : BSat P x) {v} 
 theorem BSat.triv {α} (x : Except BErr α) : BSat (fun _ => True) x := by
   cases x <;> trivial
 
-def BState.ok (st : BState) : Prop := ∀ f, st.firstInput = some f → f.noNil = true
+def BState.ok (st : BState) : Prop :=
+  (∀ f, st.firstInput = some f → f.noNil = true) ∧ (∀ f, st.predInput = some f → f.noNil = true)
 
 def BOut.good (o : BOut) : Prop := o.q.noNil = true ∧ o.st.ok
 
@@ -477,10 +478,11 @@ theorem axisPlan_sat (a : AxisInfo) (fl : Flags) (props : Props) (inp : Plan) (h
   unfold axisPlan
   split <;> first | exact BSat.error _ | (apply BSat.ok; dsimp only; try split) <;> simpa [Plan.noNil] using h
 
-theorem finAxis_sat (q : Plan) (props : Props) (st : BState) (h : q.noNil = true) :
+theorem finAxis_sat (q : Plan) (props : Props) (st : BState) (h : q.noNil = true)
+    (hp : ∀ f, st.predInput = some f → f.noNil = true) :
     BSat BOut.good (build.finAxis q props st) := by
   unfold build.finAxis
-  refine BSat.ok ⟨h, ?_⟩
+  refine BSat.ok ⟨h, ?_, hp⟩
   intro f hf
   dsimp only at hf
   split at hf
@@ -516,7 +518,8 @@ theorem BSat.bind' {α β} {P : α → Prop} {Q : β → Prop} {x : Except BErr 
   | error e => trivial
   | ok v => exact hf v rfl hx
 
-theorem BState.ok_none {n : Nat} : BState.ok { depth := n } := fun _ hf => by cases hf
+theorem BState.ok_none {n : Nat} {p : Option Plan} (hp : ∀ f, p = some f → f.noNil = true) :
+    BState.ok { depth := n, predInput := p } := ⟨fun _ hf => (by cases hf), hp⟩
 
 theorem build_acons_shape (rx : RegexOk) (lim : Nat) (sn sd : Bool) (h t : Ast) (fl : Flags) (st : BState)
     (o : BOut) (htake : fl.take ≠ 0) (hb : build rx lim sn sd (.acons h t) fl st = .ok o) :
@@ -532,9 +535,10 @@ theorem build_acons_shape (rx : RegexOk) (lim : Nat) (sn sd : Bool) (h t : Ast) 
       simp only [ht, Except.ok.injEq] at hb
       exact ⟨_, _, by rw [← hb]⟩
 
-theorem done_sat (q : Plan) (props : Props) (st : BState) (h : q.noNil = true) :
-    BSat BOut.good (.ok { q := q, props := props, st := build.leave { depth := st.depth, firstInput := some q } }) := by
-  refine BSat.ok ⟨h, fun f hf => ?_⟩
+theorem done_sat (q : Plan) (props : Props) (st : BState) (h : q.noNil = true)
+    (hp : ∀ f, st.predInput = some f → f.noNil = true) :
+    BSat BOut.good (.ok ⟨q, props, build.leave { depth := st.depth, firstInput := some q, predInput := st.predInput }⟩) := by
+  refine BSat.ok ⟨h, (fun f hf => ?_), hp⟩
   cases hf
   exact h
 
@@ -566,13 +570,13 @@ theorem build_sat (rx : RegexOk) (lim : Nat) (sn sd : Bool) (ast : Ast) (fl : Fl
     simp only [build]
     refine enter_sat fun n => ?_
     refine BSat.bind (ih _ hk hst) fun o ho => ?_
-    refine BSat.ok ⟨by simpa [Plan.noNil] using ho.1, ?_⟩
+    refine BSat.ok ⟨by simpa [Plan.noNil] using ho.1, ?_, ho.2.2⟩
     intro f hf
     simp only [build.leave] at hf
     split at hf
     · cases hf; simpa [Plan.noNil] using ho.1
     · rename_i f' hf'
-      cases hf; exact ho.2 _ hf'
+      cases hf; exact ho.2.1 _ hf'
   | case10 op l r fl st ihl ihr =>
     intro hk hst
     simp only [Ast.opsKnown, Bool.and_eq_true] at hk
@@ -627,9 +631,13 @@ theorem build_sat (rx : RegexOk) (lim : Nat) (sn sd : Bool) (ast : Ast) (fl : Fl
             · simp only [Plan.noNil, hargsQ, Bool.and_true, Bool.or_eq_true, beq_iff_eq]
               show (if _ then _ else _) = _ ∨ Plan.noNil (if _ then _ else _) = true
               split
-              · cases hfi : ao.st.firstInput with
-                | none => left; rfl
-                | some f => right; exact hao.2 f hfi
+              · unfold BState.positionInput
+                cases hpi : ao.st.predInput with
+                | some f => right; exact hao.2.2 f hpi
+                | none =>
+                  cases hfi : ao.st.firstInput with
+                  | none => left; rfl
+                  | some f => right; exact hao.2.1 f hfi
               · left; rfl
           have hjp : ∀ u, BSat BOut.good (jp u) := fun u => by
             show BSat BOut.good (if _ then _ else _)
@@ -638,7 +646,7 @@ theorem build_sat (rx : RegexOk) (lim : Nat) (sn sd : Bool) (ast : Ast) (fl : Fl
             · refine BSat.ok ⟨hq, ?_⟩
               show BState.ok (build.leave (if _ then _ else _))
               split
-              · intro f hf; cases hf; rfl
+              · exact ⟨fun f hf => by cases hf; rfl, hao.2.2⟩
               · exact hao.2
           clear_value jp
           repeat' split
@@ -647,7 +655,7 @@ theorem build_sat (rx : RegexOk) (lim : Nat) (sn sd : Bool) (ast : Ast) (fl : Fl
     intro hk hst
     simp only [build]
     refine enter_sat fun n => ?_
-    exact BSat.bind (axisPlan_sat a fl {} .context rfl) fun r hr => finAxis_sat _ _ _ hr
+    exact BSat.bind (axisPlan_sat a fl {} .context rfl) fun r hr => finAxis_sat _ _ _ hr hst.2
   | case13 a b grand fl st ihg ihi =>
     intro hk hst
     simp only [Ast.opsKnown] at hk
@@ -655,25 +663,27 @@ theorem build_sat (rx : RegexOk) (lim : Nat) (sn sd : Bool) (ast : Ast) (fl : Fl
     refine enter_sat fun n => ?_
     split
     · split
-      · exact BSat.bind (P := fun x => x.1.noNil = true) (BSat.pure rfl) fun x hx =>
-          finAxis_sat _ _ _ (by simpa [Plan.noNil] using hx)
+      · exact BSat.bind (P := fun x => x.1.noNil = true ∧ ∀ f, x.2.2.predInput = some f → f.noNil = true)
+          (BSat.pure ⟨rfl, hst.2⟩) fun x hx =>
+          finAxis_sat _ _ _ (by simpa [Plan.noNil] using hx.1) hx.2
       · rename_i hne
-        have h := ihg ⟨n, st.firstInput⟩
+        have h := ihg ⟨n, st.firstInput, st.predInput⟩
         dsimp only at h
         split at h
         · exact absurd rfl (hne · )
-        · refine BSat.bind (h hk BState.ok_none) fun o ho => ?_
-          exact BSat.bind (P := fun x => x.1.noNil = true) (BSat.pure ho.1) fun x hx =>
-            finAxis_sat _ _ _ (by simpa [Plan.noNil] using hx)
-    · refine BSat.bind (ihi ⟨n, st.firstInput⟩ (by simpa [Ast.opsKnown] using hk) BState.ok_none) fun o ho => ?_
-      exact BSat.bind (axisPlan_sat a fl _ _ ho.1) fun r hr => finAxis_sat _ _ _ hr
+        · refine BSat.bind (h hk (BState.ok_none hst.2)) fun o ho => ?_
+          exact BSat.bind (P := fun x => x.1.noNil = true ∧ ∀ f, x.2.2.predInput = some f → f.noNil = true)
+            (BSat.pure ⟨ho.1, ho.2.2⟩) fun x hx =>
+            finAxis_sat _ _ _ (by simpa [Plan.noNil] using hx.1) hx.2
+    · refine BSat.bind (ihi ⟨n, st.firstInput, st.predInput⟩ (by simpa [Ast.opsKnown] using hk) (BState.ok_none hst.2)) fun o ho => ?_
+      exact BSat.bind (axisPlan_sat a fl _ _ ho.1) fun r hr => finAxis_sat _ _ _ hr ho.2.2
   | case14 a other fl st h1 h2 ih =>
     intro hk hst
     simp only [Ast.opsKnown] at hk
     simp only [build]
     refine enter_sat fun n => ?_
-    refine BSat.bind (ih ⟨n, st.firstInput⟩ hk BState.ok_none) fun o ho => ?_
-    exact BSat.bind (axisPlan_sat a fl _ _ ho.1) fun r hr => finAxis_sat _ _ _ hr
+    refine BSat.bind (ih ⟨n, st.firstInput, st.predInput⟩ hk (BState.ok_none hst.2)) fun o ho => ?_
+    exact BSat.bind (axisPlan_sat a fl _ _ ho.1) fun r hr => finAxis_sat _ _ _ hr ho.2.2
   | case15 inp cond fl st ihi ihc =>
     intro hk hst
     simp only [Ast.opsKnown, Bool.and_eq_true] at hk
@@ -682,8 +692,9 @@ theorem build_sat (rx : RegexOk) (lim : Nat) (sn sd : Bool) (ast : Ast) (fl : Fl
     extract_lets first inFlags
     refine BSat.bind (ihi _ hk.1 hst) fun io hio => ?_
     extract_lets firstInput props props2
-    refine BSat.bind (ihc io hk.2 hio.2) fun co hco => ?_
-    extract_lets pc0 jp
+    refine BSat.bind (ihc io hk.2 ⟨hio.2.1, hio.2.1⟩) fun co0 hco0 => ?_
+    extract_lets co pc0 jp
+    have hco : BOut.good co := ⟨hco0.1, hco0.2.1, hio.2.2⟩
     have hjp : ∀ vt, BSat BOut.good (jp vt) := by
       intro vt
       simp -zeta only [jp]
@@ -705,9 +716,9 @@ theorem build_sat (rx : RegexOk) (lim : Nat) (sn sd : Bool) (ast : Ast) (fl : Fl
         simp only [jp2]
         repeat' split
         all_goals first
-          | exact done_sat _ _ _ hf
+          | exact done_sat _ _ co.st hf hco.2.2
           | (rename_i parent _ _ hpar
-             refine done_sat _ _ _ ?_
+             refine done_sat _ _ co.st ?_ hco.2.2
              simp only [Plan.noNil, Bool.and_eq_true]
              exact ⟨inputOf_noNil hpar hio.1, withInput_noNil _ _ hio.1 rfl, hcondQ⟩)
       clear_value jp2
@@ -721,15 +732,17 @@ the built plan contains no `.nil` (outside the never-evaluated `firstInput` fiel
 and neither does the `firstInput` the builder leaves behind -/
 theorem build_noNil (rx : RegexOk) (lim : Nat) (sn sd : Bool) (ast : Ast) (fl : Flags) (st : BState) (o : BOut)
     (hops : ast.opsKnown = true) (hst : ∀ f, st.firstInput = some f → f.noNil = true)
+    (hpi : ∀ f, st.predInput = some f → f.noNil = true)
     (hb : build rx lim sn sd ast fl st = .ok o) :
     o.q.noNil = true ∧ ∀ f, o.st.firstInput = some f → f.noNil = true :=
-  (build_sat rx lim sn sd ast fl st hops hst).val hb
+  have h := (build_sat rx lim sn sd ast fl st hops ⟨hst, hpi⟩).val hb
+  ⟨h.1, h.2.1⟩
 
 /-- the instance the task names (`shortcutNeedsNodeTest = true`, `smartDescThroughFilter = false`),
 from the initial builder state -/
 theorem build_clean_modulo_round (rx : RegexOk) (lim : Nat) (ast : Ast) (fl : Flags) (o : BOut)
     (hops : ast.opsKnown = true) (hb : build rx lim true false ast fl {} = .ok o) : o.q.noNil = true :=
-  (build_noNil rx lim true false ast fl {} o hops (fun _ h => by cases h) hb).1
+  (build_noNil rx lim true false ast fl {} o hops (fun _ h => by cases h) (fun _ h => by cases h) hb).1
 
 /-! ## Builder side: clean plans from well-shaped, `round`-free parse trees -/
 
@@ -789,22 +802,25 @@ def _root_.XPathV.Ast.wf : Ast → Bool
   | .group x => x.isExpr && x.wf
   | _ => true
 
-def BState.okG (st : BState) : Prop := ∀ f, st.firstInput = some f → f.good = true
+def BState.okG (st : BState) : Prop :=
+  (∀ f, st.firstInput = some f → f.good = true) ∧ (∀ f, st.predInput = some f → f.good = true)
 
 def BOut.goodFor (ast : Ast) (o : BOut) : Prop :=
   (ast.isExpr = true → o.q.good = true) ∧ (ast.isArgs = true → o.q.goodArgs = true) ∧ o.st.okG
 
-theorem BState.okG_none {n : Nat} : BState.okG { depth := n } := fun _ hf => by cases hf
+theorem BState.okG_none {n : Nat} {p : Option Plan} (hp : ∀ f, p = some f → f.good = true) :
+    BState.okG { depth := n, predInput := p } := ⟨fun _ hf => (by cases hf), hp⟩
 
 theorem axisPlan_good (a : AxisInfo) (fl : Flags) (props : Props) (inp : Plan) (h : inp.good = true) :
     BSat (fun r => r.1.good = true) (axisPlan a fl props inp) := by
   unfold axisPlan
   split <;> first | exact BSat.error _ | (apply BSat.ok; dsimp only; try split) <;> simpa [Plan.good] using h
 
-theorem finAxis_good (q : Plan) (props : Props) (st : BState) (h : q.good = true) :
+theorem finAxis_good (q : Plan) (props : Props) (st : BState) (h : q.good = true)
+    (hp : ∀ f, st.predInput = some f → f.good = true) :
     BSat (fun o : BOut => o.q.good = true ∧ o.st.okG) (build.finAxis q props st) := by
   unfold build.finAxis
-  refine BSat.ok ⟨h, ?_⟩
+  refine BSat.ok ⟨h, ?_, hp⟩
   intro f hf
   dsimp only at hf
   split at hf
@@ -833,10 +849,11 @@ theorem inputOf_good {q p : Plan} (h : q.inputOf = some p) (hq : q.good = true) 
 theorem withInput_good (q n : Plan) (hq : q.good = true) (hn : n.good = true) : (q.withInput n).good = true := by
   cases q <;> simp_all [Plan.withInput, Plan.good]
 
-theorem done_good (q : Plan) (props : Props) (st : BState) (h : q.good = true) :
+theorem done_good (q : Plan) (props : Props) (st : BState) (h : q.good = true)
+    (hp : ∀ f, st.predInput = some f → f.good = true) :
     BSat (fun o : BOut => o.q.good = true ∧ o.st.okG)
-      (.ok { q := q, props := props, st := build.leave { depth := st.depth, firstInput := some q } }) := by
-  refine BSat.ok ⟨h, fun f hf => ?_⟩
+      (.ok ⟨q, props, build.leave { depth := st.depth, firstInput := some q, predInput := st.predInput }⟩) := by
+  refine BSat.ok ⟨h, (fun f hf => ?_), hp⟩
   cases hf
   exact h
 
@@ -883,13 +900,13 @@ theorem build_good (rx : RegexOk) (lim : Nat) (sn sd : Bool) (ast : Ast) (fl : F
     refine goodFor_expr rfl (enter_sat fun n => ?_)
     refine BSat.bind (ih _ hk.2 hst) fun o ho => ?_
     have hq : (Plan.group o.q).good = true := by simpa [Plan.good] using ho.1 hk.1
-    refine BSat.ok ⟨hq, ?_⟩
+    refine BSat.ok ⟨hq, ?_, ho.2.2.2⟩
     intro f hf
     simp only [build.leave] at hf
     split at hf
     · cases hf; exact hq
     · rename_i f' hf'
-      cases hf; exact ho.2.2 _ hf'
+      cases hf; exact ho.2.2.1 _ hf'
   | case10 op l r fl st ihl ihr =>
     intro hk hst
     simp only [Ast.wf, Bool.and_eq_true] at hk
@@ -949,9 +966,13 @@ theorem build_good (rx : RegexOk) (lim : Nat) (sn sd : Bool) (ast : Ast) (fl : F
               refine ⟨hname, ?_⟩
               show (if _ then _ else _) = _ ∨ Plan.good (if _ then _ else _) = true
               split
-              · cases hfi : ao.st.firstInput with
-                | none => left; rfl
-                | some f => right; exact hao.2.2 f hfi
+              · unfold BState.positionInput
+                cases hpi : ao.st.predInput with
+                | some f => right; exact hao.2.2.2 f hpi
+                | none =>
+                  cases hfi : ao.st.firstInput with
+                  | none => left; rfl
+                  | some f => right; exact hao.2.2.1 f hfi
               · left; rfl
           have hjp : ∀ u, BSat (fun o : BOut => o.q.good = true ∧ o.st.okG) (jp u) := fun u => by
             show BSat _ (if _ then _ else _)
@@ -960,7 +981,7 @@ theorem build_good (rx : RegexOk) (lim : Nat) (sn sd : Bool) (ast : Ast) (fl : F
             · refine BSat.ok ⟨hq, ?_⟩
               show BState.okG (build.leave (if _ then _ else _))
               split
-              · intro f hf; cases hf; rfl
+              · exact ⟨fun f hf => (by cases hf; rfl), hao.2.2.2⟩
               · exact hao.2.2
           clear_value jp
           repeat' split
@@ -969,7 +990,7 @@ theorem build_good (rx : RegexOk) (lim : Nat) (sn sd : Bool) (ast : Ast) (fl : F
     intro hk hst
     simp only [build]
     refine goodFor_expr rfl (enter_sat fun n => ?_)
-    exact BSat.bind (axisPlan_good a fl {} .context rfl) fun r hr => finAxis_good _ _ _ hr
+    exact BSat.bind (axisPlan_good a fl {} .context rfl) fun r hr => finAxis_good _ _ _ hr hst.2
   | case13 a b grand fl st ihg ihi =>
     intro hk hst
     simp only [Ast.wf, Bool.and_eq_true] at hk
@@ -977,25 +998,27 @@ theorem build_good (rx : RegexOk) (lim : Nat) (sn sd : Bool) (ast : Ast) (fl : F
     refine goodFor_expr rfl (enter_sat fun n => ?_)
     split
     · split
-      · exact BSat.bind (P := fun x => x.1.good = true) (BSat.pure rfl) fun x hx =>
-          finAxis_good _ _ _ (by simpa [Plan.good] using hx)
+      · exact BSat.bind (P := fun x => x.1.good = true ∧ ∀ f, x.2.2.predInput = some f → f.good = true)
+          (BSat.pure ⟨rfl, hst.2⟩) fun x hx =>
+          finAxis_good _ _ _ (by simpa [Plan.good] using hx.1) hx.2
       · rename_i hne
-        have h := ihg ⟨n, st.firstInput⟩
+        have h := ihg ⟨n, st.firstInput, st.predInput⟩
         dsimp only at h
         split at h
         · exact absurd rfl (hne · )
-        · refine BSat.bind (h hk.2.2 BState.okG_none) fun o ho => ?_
-          exact BSat.bind (P := fun x => x.1.good = true) (BSat.pure (ho.1 hk.2.1)) fun x hx =>
-            finAxis_good _ _ _ (by simpa [Plan.good] using hx)
-    · refine BSat.bind (ihi ⟨n, st.firstInput⟩ (by simpa [Ast.wf] using hk.2) BState.okG_none) fun o ho => ?_
-      exact BSat.bind (axisPlan_good a fl _ _ (ho.1 rfl)) fun r hr => finAxis_good _ _ _ hr
+        · refine BSat.bind (h hk.2.2 (BState.okG_none hst.2)) fun o ho => ?_
+          exact BSat.bind (P := fun x => x.1.good = true ∧ ∀ f, x.2.2.predInput = some f → f.good = true)
+            (BSat.pure ⟨ho.1 hk.2.1, ho.2.2.2⟩) fun x hx =>
+            finAxis_good _ _ _ (by simpa [Plan.good] using hx.1) hx.2
+    · refine BSat.bind (ihi ⟨n, st.firstInput, st.predInput⟩ (by simpa [Ast.wf] using hk.2) (BState.okG_none hst.2)) fun o ho => ?_
+      exact BSat.bind (axisPlan_good a fl _ _ (ho.1 rfl)) fun r hr => finAxis_good _ _ _ hr ho.2.2.2
   | case14 a other fl st h1 h2 ih =>
     intro hk hst
     simp only [Ast.wf, Bool.and_eq_true] at hk
     simp only [build]
     refine goodFor_expr rfl (enter_sat fun n => ?_)
-    refine BSat.bind (ih ⟨n, st.firstInput⟩ hk.2 BState.okG_none) fun o ho => ?_
-    exact BSat.bind (axisPlan_good a fl _ _ (ho.1 hk.1)) fun r hr => finAxis_good _ _ _ hr
+    refine BSat.bind (ih ⟨n, st.firstInput, st.predInput⟩ hk.2 (BState.okG_none hst.2)) fun o ho => ?_
+    exact BSat.bind (axisPlan_good a fl _ _ (ho.1 hk.1)) fun r hr => finAxis_good _ _ _ hr ho.2.2.2
   | case15 inp cond fl st ihi ihc =>
     intro hk hst
     simp only [Ast.wf, Bool.and_eq_true] at hk
@@ -1005,10 +1028,10 @@ theorem build_good (rx : RegexOk) (lim : Nat) (sn sd : Bool) (ast : Ast) (fl : F
     extract_lets first inFlags
     refine BSat.bind (ihi _ hiw hst) fun io hio => ?_
     extract_lets firstInput props props2
-    refine BSat.bind (ihc io hcw hio.2.2) fun co hco => ?_
-    extract_lets pc0 jp
+    refine BSat.bind (ihc io hcw ⟨hio.2.2.1, hio.2.2.1⟩) fun co0 hco0 => ?_
+    extract_lets co pc0 jp
     have hio1 := hio.1 hie
-    have hco1 := hco.1 hce
+    have hco1 : co.q.good = true := hco0.1 hce
     have hjp : ∀ vt, BSat (fun o : BOut => o.q.good = true ∧ o.st.okG) (jp vt) := by
       intro vt
       simp -zeta only [jp]
@@ -1030,9 +1053,9 @@ theorem build_good (rx : RegexOk) (lim : Nat) (sn sd : Bool) (ast : Ast) (fl : F
         simp only [jp2]
         repeat' split
         all_goals first
-          | exact done_good _ _ _ hf
+          | exact done_good _ _ co.st hf hio.2.2.2
           | (rename_i parent _ _ hpar
-             refine done_good _ _ _ ?_
+             refine done_good _ _ co.st ?_ hio.2.2.2
              simp only [Plan.good, Bool.and_eq_true]
              exact ⟨inputOf_good hpar hio1, withInput_good _ _ hio1 rfl, hcondQ⟩)
       clear_value jp2
@@ -1045,7 +1068,7 @@ theorem build_good (rx : RegexOk) (lim : Nat) (sn sd : Bool) (ast : Ast) (fl : F
 theorem build_clean (rx : RegexOk) (lim : Nat) (sn sd : Bool) (ast : Ast) (fl : Flags) (o : BOut)
     (hwf : ast.wf = true) (he : ast.isExpr = true) (hb : build rx lim sn sd ast fl {} = .ok o) :
     o.q.clean = true :=
-  (Plan.good_clean o.q).1 (((build_good rx lim sn sd ast fl {} hwf (fun _ h => by cases h)).val hb).1 he)
+  (Plan.good_clean o.q).1 (((build_good rx lim sn sd ast fl {} hwf ⟨fun _ h => (by cases h), fun _ h => (by cases h)⟩).val hb).1 he)
 
 /-- **C15 for built plans, modulo `round`** -/
 theorem built_plan_no_crash {F : Type} [NumAlg F] (rx : RegexOk) (lim : Nat) (sn sd : Bool) (ast : Ast)
